@@ -44,6 +44,29 @@ PURE_BUILTINS = {"len", "int", "str", "bytes", "ord", "chr", "isinstance", "tupl
                  "sorted", "set", "dict", "frozenset", "range", "enumerate", "zip", "divmod", "id", "callable", "issubclass", "hash"}
 
 
+_names = {}
+
+
+def _class_names():
+    """names defined as classes (and never as functions) anywhere in the reference tree"""
+    if "classes" not in _names:
+        cls, fns = set(), set()
+        for dp, dn, fs in os.walk(ANCHOR_ROOT):
+            for f in fs:
+                if f.endswith(".py"):
+                    try:
+                        t = ast.parse(open(os.path.join(dp, f), encoding="utf-8").read())
+                    except (OSError, SyntaxError):
+                        continue
+                    for n in ast.walk(t):
+                        if isinstance(n, ast.ClassDef):
+                            cls.add(n.name)
+                        elif isinstance(n, (ast.FunctionDef, ast.AsyncFunctionDef)):
+                            fns.add(n.name)
+        _names["classes"] = cls - fns
+    return _names["classes"]
+
+
 def anchor_tree(rel):
     """parsed reference version of the file `rel` (e.g. 'passlib/context.py'), or None"""
     if rel not in _cache:
@@ -546,9 +569,15 @@ def _try_hoist(stmts):
 
 
 def _strip_tail_continue(body):
-    """a `continue` in tail position of a loop body does nothing"""
+    """a `continue` in tail position of a loop body does nothing; `if c: continue` followed by the rest of the body is `if not c: <rest>`"""
     if not body:
         return body
+    for i, st in enumerate(body[:-1]):
+        if isinstance(st, ast.If) and not st.orelse and len(st.body) == 1 and isinstance(st.body[0], ast.Continue):
+            rest = _strip_tail_continue(body[i + 1:])
+            if not rest:
+                return body[:i] + ([ast.Expr(value=st.test)] if not _simple_pure(st.test) else [])
+            return body[:i] + [ast.If(test=_neg_test(st.test), body=rest, orelse=[])]
     last = body[-1]
     if isinstance(last, ast.Continue):
         return _strip_tail_continue(body[:-1])
@@ -585,6 +614,9 @@ def _norm_stmt(st, fn_locals):
         return None
     if _is_docstring(st):
         return None
+    if isinstance(st, ast.Raise) and isinstance(st.exc, ast.Name) and st.exc.id in _class_names():
+        # raising a class instantiates it without arguments
+        return ast.Raise(exc=ast.Call(func=st.exc, args=[], keywords=[]), cause=st.cause)
     if isinstance(st, ast.Expr) and isinstance(st.value, ast.Call) and isinstance(st.value.func, ast.Attribute) and isinstance(st.value.func.value, ast.Name) \
             and st.value.func.value.id in LOG_RECEIVERS:
         return None
@@ -888,7 +920,10 @@ def _stable(e, attr_stores, params=("self", "cls")):
                 return False
             if ast.unparse(n) in attr_stores:
                 return False
-        elif isinstance(n, (ast.Subscript, ast.Call, ast.BinOp, ast.Compare, ast.BoolOp, ast.IfExp, ast.UnaryOp)):
+        elif isinstance(n, ast.Call):
+            if not (isinstance(n.func, ast.Name) and n.func.id == "len" and len(n.args) == 1 and not n.keywords):
+                return False
+        elif isinstance(n, (ast.Subscript, ast.BinOp, ast.Compare, ast.BoolOp, ast.IfExp, ast.UnaryOp)):
             return False
     return True
 
@@ -1376,6 +1411,318 @@ def _kind(fn):
 
 
 # ----------------------------------------------------------------------------------------------------- versions of straight-line names
+def _webs(fn):
+    """Split every local name (and parameter) into its def-use webs and give each web its own name.
+
+    Reaching definitions are computed over the structured statements (if / while / for / try / with; `break`, `continue`, `return` and
+    `raise` end a path).  Two definitions belong to the same web when they reach a common use.  A name whose every use is reached by one
+    web only is thereby renamed per live range: re-binding a parameter (`time = f(time)`), reusing a name for a second purpose, or
+    accumulating into a name in steps becomes indistinguishable from introducing fresh locals -- which is all the difference there is.
+    Names captured by nested functions / lambdas, globals, and names that are deleted are left alone.  The web that holds a parameter's
+    initial value keeps the parameter's name."""
+    params = [a.arg for a in fn.args.posonlyargs + fn.args.args + fn.args.kwonlyargs]
+    if fn.args.vararg:
+        params.append(fn.args.vararg.arg)
+    if fn.args.kwarg:
+        params.append(fn.args.kwarg.arg)
+    skip = set(_captured(fn))
+    for n in ast.walk(fn):
+        if isinstance(n, (ast.Global, ast.Nonlocal)):
+            skip |= set(n.names)
+        if isinstance(n, ast.Name) and isinstance(n.ctx, ast.Del):
+            skip.add(n.id)
+        if isinstance(n, (ast.Import, ast.ImportFrom)) and n is not fn:
+            for a in n.names:
+                skip.add((a.asname or a.name).split(".")[0])
+    parent = {}
+
+    def find(x):
+        while parent.setdefault(x, x) != x:
+            parent[x] = parent[parent[x]]
+            x = parent[x]
+        return x
+
+    def union(a, b):
+        ra, rb = find(a), find(b)
+        if ra != rb:
+            parent[rb] = ra
+    def_node = {}       # def id -> Name node (store) / ExceptHandler / None for parameters
+    use_defs = {}       # id(Name load node) -> set of def ids
+    comp_bound = []
+
+    def use(node, state):
+        """record the loads in an expression"""
+        if node is None:
+            return
+        if isinstance(node, (ast.ListComp, ast.SetComp, ast.DictComp, ast.GeneratorExp)):
+            bound = {n.id for g in node.generators for n in ast.walk(g.target) if isinstance(n, ast.Name)}
+            comp_bound.append(bound)
+            for ch in ast.iter_child_nodes(node):
+                use(ch, state)
+            comp_bound.pop()
+            return
+        if isinstance(node, (ast.Lambda, ast.FunctionDef, ast.AsyncFunctionDef, ast.ClassDef)):
+            return
+        if isinstance(node, ast.NamedExpr):
+            use(node.value, state)
+            define(node.target, state)
+            return
+        if isinstance(node, ast.Name):
+            if isinstance(node.ctx, ast.Load) and node.id not in skip and not any(node.id in b for b in comp_bound):
+                ds = state.get(node.id, frozenset())
+                use_defs[id(node)] = ds
+                ds = list(ds)
+                for d in ds[1:]:
+                    union(ds[0], d)
+            return
+        for ch in ast.iter_child_nodes(node):
+            use(ch, state)
+
+    def define(target, state):
+        for n in ast.walk(target):
+            if isinstance(n, ast.Name) and isinstance(n.ctx, ast.Store) and n.id not in skip:
+                d = ("d", id(n))
+                def_node[d] = n
+                find(d)
+                state[n.id] = frozenset([d])
+            elif isinstance(n, (ast.Attribute, ast.Subscript)) and n is not target or isinstance(n, (ast.Attribute, ast.Subscript)):
+                pass
+        # loads inside a store target (a[i] = ..., obj.attr = ...)
+        for n in ast.walk(target):
+            if isinstance(n, ast.Name) and isinstance(n.ctx, ast.Load):
+                use(n, state)
+
+    def merge(*states):
+        live = [x for x in states if x is not None]
+        if not live:
+            return None
+        out = {}
+        for st in live:
+            for k, v in st.items():
+                out[k] = out.get(k, frozenset()) | v
+        return out
+
+    class Loop:
+        def __init__(self):
+            self.breaks, self.continues = [], []
+    loops = []
+
+    def block(stmts, state):
+        for st in stmts:
+            if state is None:
+                return None
+            state = stmt(st, state)
+        return state
+
+    def stmt(st, state):
+        if isinstance(st, ast.Assign):
+            use(st.value, state)
+            for t in st.targets:
+                define(t, state)
+            return state
+        if isinstance(st, ast.AugAssign):
+            use(st.value, state)
+            if isinstance(st.target, ast.Name):
+                if st.target.id not in skip:
+                    ds = state.get(st.target.id, frozenset())
+                    use_defs[("aug", id(st))] = ds
+                    ds = list(ds)
+                    for d in ds[1:]:
+                        union(ds[0], d)
+                    d = ("d", id(st.target))
+                    def_node[d] = st.target
+                    find(d)
+                    state[st.target.id] = frozenset([d])
+            else:
+                use(st.target, state)
+            return state
+        if isinstance(st, ast.AnnAssign):
+            use(st.value, state)
+            if st.value is not None:
+                define(st.target, state)
+            return state
+        if isinstance(st, (ast.Return,)):
+            use(st.value, state)
+            return None
+        if isinstance(st, ast.Raise):
+            use(st.exc, state)
+            use(st.cause, state)
+            return None
+        if isinstance(st, ast.Break):
+            if loops:
+                loops[-1].breaks.append(dict(state))
+            return None
+        if isinstance(st, ast.Continue):
+            if loops:
+                loops[-1].continues.append(dict(state))
+            return None
+        if isinstance(st, ast.If):
+            use(st.test, state)
+            a = block(st.body, dict(state))
+            b = block(st.orelse, dict(state))
+            return merge(a, b)
+        if isinstance(st, (ast.While, ast.For)):
+            if isinstance(st, ast.For):
+                use(st.iter, state)
+            entry = dict(state)
+            lp = None
+            for _ in range(3):
+                lp = Loop()
+                loops.append(lp)
+                cur = dict(entry)
+                if isinstance(st, ast.While):
+                    use(st.test, cur)
+                else:
+                    define(st.target, cur)
+                after = block(st.body, cur)
+                loops.pop()
+                new_entry = merge(entry, after, *lp.continues)
+                if new_entry == entry:
+                    break
+                entry = new_entry
+            exit_state = dict(entry)
+            if isinstance(st, ast.While):
+                use(st.test, exit_state)
+            if st.orelse:
+                exit_state = block(st.orelse, exit_state)
+            return merge(exit_state, *(lp.breaks if lp else []))
+        if isinstance(st, ast.With):
+            for it in st.items:
+                use(it.context_expr, state)
+                if it.optional_vars is not None:
+                    define(it.optional_vars, state)
+            return block(st.body, state)
+        if isinstance(st, ast.Try):
+            # a handler may start from the state after any prefix of the body
+            seen = [dict(state)]
+            cur = dict(state)
+            for b in st.body:
+                if cur is None:
+                    break
+                cur = stmt(b, cur)
+                if cur is not None:
+                    seen.append(dict(cur))
+            body_end = cur
+            if st.orelse and body_end is not None:
+                body_end = block(st.orelse, body_end)
+            ends = [body_end]
+            h_entry = merge(*seen)
+            for h in st.handlers:
+                hs = dict(h_entry)
+                use(h.type, hs)
+                if h.name and h.name not in skip:
+                    d = ("d", id(h))
+                    def_node[d] = h
+                    find(d)
+                    hs[h.name] = frozenset([d])
+                ends.append(block(h.body, hs))
+            out = merge(*ends)
+            if st.finalbody:
+                fin_in = merge(out, h_entry)
+                fin_out = block(st.finalbody, fin_in)
+                return fin_out if out is not None else None
+            return out
+        if isinstance(st, (ast.FunctionDef, ast.AsyncFunctionDef, ast.ClassDef)):
+            for d_ in st.decorator_list:
+                use(d_, state)
+            if st.name not in skip:
+                pass
+            return state
+        if isinstance(st, ast.Expr):
+            use(st.value, state)
+            return state
+        if isinstance(st, ast.Assert):
+            use(st.test, state)
+            use(st.msg, state)
+            return state
+        if isinstance(st, ast.Delete):
+            for t in st.targets:
+                use(t, state)
+            return state
+        if isinstance(st, (ast.Import, ast.ImportFrom, ast.Global, ast.Nonlocal, ast.Pass)):
+            return state
+        for ch in ast.iter_child_nodes(st):
+            if isinstance(ch, ast.expr):
+                use(ch, state)
+        return state
+
+    state0 = {}
+    for p_ in params:
+        if p_ not in skip:
+            d = ("p", p_)
+            def_node[d] = None
+            find(d)
+            state0[p_] = frozenset([d])
+    block(fn.body, state0)
+    # name per web
+    webs = {}
+    for d in def_node:
+        webs.setdefault(find(d), []).append(d)
+    by_name = {}
+    for root, ds in webs.items():
+        nm = ds[0][1] if ds[0][0] == "p" else (def_node[ds[0]].id if isinstance(def_node[ds[0]], ast.Name) else def_node[ds[0]].name)
+        by_name.setdefault(nm, []).append((root, ds))
+    new_name = {}
+    for nm, lst in by_name.items():
+        if len(lst) == 1:
+            continue
+        # deterministic numbering: parameter web first, then by first definition in source order
+        order_pos = {id(n): i for i, n in enumerate(ast.walk(fn))}
+
+        def first(ds):
+            return min((-1 if d[0] == "p" else order_pos.get(d[1], 10 ** 9)) for d in ds)
+        lst.sort(key=lambda x: first(x[1]))
+        k = 0
+        for root, ds in lst:
+            if any(d[0] == "p" for d in ds):
+                continue
+            k += 1
+            new_name[root] = f"{nm}#{k}"
+    if not new_name:
+        return
+    # rename definitions
+    for d, node in def_node.items():
+        nn = new_name.get(find(d))
+        if nn is None or node is None:
+            continue
+        if isinstance(node, ast.Name):
+            node.id = nn
+        else:
+            node.name = nn
+    # rename uses (after the definitions: an AugAssign target is both)
+    aug = {}
+    for n in ast.walk(fn):
+        if isinstance(n, ast.AugAssign) and isinstance(n.target, ast.Name):
+            aug[id(n)] = n
+    for n in ast.walk(fn):
+        if isinstance(n, ast.Name) and isinstance(n.ctx, ast.Load) and id(n) in use_defs:
+            ds = use_defs[id(n)]
+            if ds:
+                nn = new_name.get(find(next(iter(ds))))
+                if nn is not None:
+                    n.id = nn
+    # x += y where the value read and the value written are different webs  ->  x' = x + y
+    def fix_aug(stmts):
+        for i, st in enumerate(stmts):
+            if isinstance(st, ast.AugAssign) and isinstance(st.target, ast.Name) and ("aug", id(st)) in use_defs:
+                ds = use_defs[("aug", id(st))]
+                old = None
+                if ds:
+                    d0 = next(iter(ds))
+                    base = d0[1] if d0[0] == "p" else (def_node[d0].id if isinstance(def_node[d0], ast.Name) else def_node[d0].name)
+                    old = new_name.get(find(d0)) or (d0[1] if d0[0] == "p" else base)
+                if old is not None and old != st.target.id:
+                    stmts[i] = ast.Assign(targets=[ast.Name(id=st.target.id, ctx=ast.Store())], value=ast.BinOp(left=ast.Name(id=old, ctx=ast.Load()), op=st.op, right=st.value))
+            for fld in ("body", "orelse", "finalbody"):
+                blk = getattr(st, fld, None)
+                if isinstance(blk, list) and blk and isinstance(blk[0], ast.stmt) and not isinstance(st, (ast.FunctionDef, ast.AsyncFunctionDef, ast.ClassDef)):
+                    fix_aug(blk)
+            if isinstance(st, ast.Try):
+                for h in st.handlers:
+                    fix_aug(h.body)
+    fix_aug(fn.body)
+
+
 def _joined(iff):
     """names that every path through the `if` which falls through assigns exactly once, by a simple statement at the top level of its branch
     (so after the `if` the name holds `the value assigned in the branch taken`)"""
@@ -1626,8 +1973,10 @@ def normal_ast(node, helpers=None, in_class=False, single_base=None, depth=0):
             node.body = _Inliner(helpers, "method" if in_class else "function").run_block(node.body)
         params = {a.arg for a in node.args.posonlyargs + node.args.args + node.args.kwonlyargs}
         node.body = _split_chained(node.body)
+        _readonly_lists(node)
+        _scalarise(node)
         node.body = _cond_assign(node.body, params)
-        _versions(node)
+        _webs(node)
         node = _Expr(single_base).visit(node)
         # `return None` is `return`; falling off the end is `return`
         for n in ast.walk(node):
@@ -1690,6 +2039,87 @@ def _split_chained(stmts):
     return out
 
 
+def _uses_of(fn, name):
+    """(node, parent) pairs for every occurrence of the local `name`"""
+    out = []
+    for par in ast.walk(fn):
+        for ch in ast.iter_child_nodes(par):
+            if isinstance(ch, ast.Name) and ch.id == name:
+                out.append((ch, par))
+    return out
+
+
+def _readonly_lists(fn):
+    """v = [a, b, ...]  assigned once and only ever indexed, iterated, measured or tested for membership  ->  v = (a, b, ...)"""
+    counts = _local_counts(fn)
+    for st in _all_simple_assigns(fn):
+        t = st.targets[0].id
+        if counts.get(t, (0,))[0] != 1 or not isinstance(st.value, ast.List):
+            continue
+        ok = True
+        for n, par in _uses_of(fn, t):
+            if n is st.targets[0]:
+                continue
+            if isinstance(par, ast.Subscript) and par.value is n and isinstance(par.ctx, ast.Load):
+                continue
+            if isinstance(par, (ast.For, ast.comprehension)) and par.iter is n:
+                continue
+            if isinstance(par, ast.Compare) and n in par.comparators and all(isinstance(o, (ast.In, ast.NotIn)) for o in par.ops):
+                continue
+            if isinstance(par, ast.Call) and isinstance(par.func, ast.Name) and par.func.id == "len" and par.args == [n]:
+                continue
+            ok = False
+            break
+        if ok:
+            st.value = ast.Tuple(elts=st.value.elts, ctx=ast.Load())
+
+
+def _scalarise(fn):
+    """t = (e1, e2) ... a, b = t      ->      t_0 = e1 ; t_1 = e2 ... a = t_0 ; b = t_1     (t assigned once, only ever unpacked in full)"""
+    counts = _local_counts(fn)
+    for st in list(_all_simple_assigns(fn)):
+        t = st.targets[0].id
+        if counts.get(t, (0,))[0] != 1 or not isinstance(st.value, ast.Tuple) or not st.value.elts or any(isinstance(e, ast.Starred) for e in st.value.elts):
+            continue
+        n_el = len(st.value.elts)
+        unpacks = []
+        ok = True
+        for n, par in _uses_of(fn, t):
+            if n is st.targets[0]:
+                continue
+            if isinstance(par, ast.Assign) and par.value is n and len(par.targets) == 1 and isinstance(par.targets[0], ast.Tuple) and len(par.targets[0].elts) == n_el \
+                    and not any(isinstance(e, ast.Starred) for e in par.targets[0].elts):
+                unpacks.append(par)
+                continue
+            ok = False
+            break
+        if not ok or not unpacks:
+            continue
+        parts = [f"{t}__{i}" for i in range(n_el)]
+        _replace_stmt(fn, st, [ast.Assign(targets=[ast.Name(id=p_, ctx=ast.Store())], value=e) for p_, e in zip(parts, st.value.elts)])
+        for u in unpacks:
+            _replace_stmt(fn, u, [ast.Assign(targets=[tg], value=ast.Name(id=p_, ctx=ast.Load())) for tg, p_ in zip(u.targets[0].elts, parts)])
+
+
+def _replace_stmt(fn, target, new):
+    def go(stmts):
+        for i, st in enumerate(stmts):
+            if st is target:
+                stmts[i:i + 1] = new
+                return True
+            for fld in ("body", "orelse", "finalbody"):
+                blk = getattr(st, fld, None)
+                if isinstance(blk, list) and blk and isinstance(blk[0], ast.stmt) and not isinstance(st, (ast.FunctionDef, ast.AsyncFunctionDef, ast.ClassDef)):
+                    if go(blk):
+                        return True
+            if isinstance(st, ast.Try):
+                for h in st.handlers:
+                    if go(h.body):
+                        return True
+        return False
+    go(fn.body)
+
+
 def _tgt_val(st):
     """(target name, names read) of a simple assignment / augmented assignment with a pure value; None otherwise"""
     if isinstance(st, ast.Assign) and len(st.targets) == 1 and isinstance(st.targets[0], ast.Name) and _simple_pure(st.value):
@@ -1716,8 +2146,15 @@ def _nested_defs(fn, helpers, single_base, depth):
 
 
 def _sort_independent(fn):
-    """runs of adjacent simple assignments with pure values that neither read nor write each other's targets commute: sort each run by the
-    text of the value (which only mentions names defined before the run)"""
+    """a maximal run of adjacent simple (augmented) assignments with pure values may be executed in any order that respects its
+    read-after-write / write-after-read / write-after-write dependencies: emit the run in the canonical topological order that always
+    picks, among the statements whose predecessors are out, the one with the smallest value text"""
+    def key(st):
+        return (type(st).__name__, _dump(st.value), _dump(getattr(st, "op", ast.Pass())), _mask(st))
+
+    def _mask(st):
+        return ""
+
     def go(stmts):
         i = 0
         while i < len(stmts):
@@ -1727,14 +2164,25 @@ def _sort_independent(fn):
                 tv = _tgt_val(stmts[j])
                 if tv is None:
                     break
-                t, reads = tv
-                if any(t in r[1] or r[0] in reads or r[0] == t for r in meta):
-                    break
                 run.append(stmts[j])
-                meta.append((t, reads))
+                meta.append(tv)
                 j += 1
             if len(run) > 1:
-                stmts[i:j] = sorted(run, key=lambda r: (type(r).__name__, _dump(r.value), _dump(getattr(r, 'op', ast.Pass()))))
+                n = len(run)
+                preds = {k: set() for k in range(n)}
+                for x in range(n):
+                    for y in range(x + 1, n):
+                        tx, rx = meta[x]
+                        ty, ry = meta[y]
+                        if tx in ry or ty in rx or tx == ty:
+                            preds[y].add(x)
+                done, order = set(), []
+                while len(order) < n:
+                    ready = [k for k in range(n) if k not in done and preds[k] <= done]
+                    k = min(ready, key=lambda q: (key(run[q]), q))
+                    done.add(k)
+                    order.append(run[k])
+                stmts[i:j] = order
             i = max(j, i + 1)
         for st in stmts:
             for fld in ("body", "orelse", "finalbody"):
